@@ -12,6 +12,7 @@
 # See the License for the specific language governing permissions and
 # limitations under the License.
 
+import functools
 import hashlib
 import io
 import pickle
@@ -22,6 +23,7 @@ import sys
 import traceback
 from abc import ABC, abstractmethod
 from collections import deque, namedtuple
+from threading import RLock
 from time import sleep
 from typing import List, Iterable, Dict, Type, Optional, Union, cast
 from weakref import WeakValueDictionary
@@ -1073,9 +1075,24 @@ class _CacheEntry:
         self.has_value = has_value
 
 
+def _synchronized(method):
+    """Run the method while holding the lock of the `MemoryCache` it is called on"""
+
+    @functools.wraps(method)
+    def wrapper(self, *args, **kwargs):
+        with self._lock:
+            return method(self, *args, **kwargs)
+
+    return wrapper
+
+
 class MemoryCache:
     """
     Write-through memory cache for memoized data
+
+    The cache is shared by all threads that call functions of the cluster, so every
+    operation that reads or updates the entries, the LRU order and the usage counter
+    runs under one lock.
 
     """
 
@@ -1084,8 +1101,10 @@ class MemoryCache:
     lru_deque = None  # type: deque
     cache = None  # type: Dict[str, _CacheEntry]
     refs = None  # type: WeakValueDictionary
+    _lock = None  # type: RLock
 
     def __init__(self, memory_cache_mb: int = None):
+        self._lock = RLock()
         self.memory_cache_bytes = memory_cache_mb * 1024 * 1024
         self.memory_usage = 0
         self.lru_deque = deque()
@@ -1192,6 +1211,7 @@ class MemoryCache:
         if cache_key in self.lru_deque:
             self.lru_deque.remove(cache_key)
 
+    @_synchronized
     def get_mementos(
         self, fns: List[FunctionReferenceWithArgHash]
     ) -> List[Optional[Memento]]:
@@ -1206,6 +1226,7 @@ class MemoryCache:
                 result.append(memento)
         return result
 
+    @_synchronized
     def read_result(self, memento: Memento) -> object:
         """Return the memento if it exists in the cache, else raise KeyError"""
         cache_key = self._cache_key_for_memento(memento)
@@ -1219,6 +1240,7 @@ class MemoryCache:
             # return a cached ref if it's still in memory
             return self.refs[cache_key]  # May raise KeyError
 
+    @_synchronized
     def is_memoized(self, fn_reference: FunctionReference, arg_hash: str) -> bool:
         cache_key = self._cache_key_for_fn(fn_reference, arg_hash)
         if cache_key in self.cache:
@@ -1226,6 +1248,7 @@ class MemoryCache:
             return True
         return cache_key in self.refs
 
+    @_synchronized
     def is_all_memoized(self, fns: Iterable[FunctionReferenceWithArguments]) -> bool:
         return all([self.is_memoized(x.fn_reference, x.arg_hash) for x in fns])
 
@@ -1236,6 +1259,7 @@ class MemoryCache:
             # primitives like ints, strs, and dicts can't be weakrefed
             pass
 
+    @_synchronized
     def put(self, memento: Memento, result: object, has_result: bool):
         cache_key = self._cache_key_for_memento(memento)
         if has_result:
@@ -1271,6 +1295,7 @@ class MemoryCache:
         self.lru_deque.append(cache_key)
         self.memory_usage += obj_size
 
+    @_synchronized
     def forget_call(self, fn_with_arg_hash: FunctionReferenceWithArgHash):
         cache_key = self._cache_key_for_fn(
             fn_with_arg_hash.fn_reference, fn_with_arg_hash.arg_hash
@@ -1278,12 +1303,14 @@ class MemoryCache:
         self.refs.pop(cache_key, None)
         self._evict(cache_key)
 
+    @_synchronized
     def forget_everything(self):
         self.memory_usage = 0
         self.cache.clear()
         self.lru_deque.clear()
         self.refs.clear()
 
+    @_synchronized
     def forget_function(self, fn_reference: FunctionReference):
         qualified_name = fn_reference.qualified_name
         qualified_name_slash = qualified_name + "/"
